@@ -42,7 +42,9 @@ EXTENDS Integers, Sequences, FiniteSets, TLC, Json, IOUtils, SequencesExt, CodeB
 
 Dump == ndJsonDeserialize(IOEnv.DUMP)
 EngineSig == ndJsonDeserialize(IOEnv.SIG)[1]     \* instruction set of the engine the dump came from
-EmitDepths == "DEPTHS" \in DOMAIN IOEnv /\ IOEnv.DEPTHS = "1"
+\* DEPTHS=<n>: also print the depth assignment of every block of compilations n, n+1, ... (for the dynamic half)
+DepthsFrom == IF "DEPTHS" \in DOMAIN IOEnv THEN atoi(IOEnv.DEPTHS) ELSE -1
+EmitDepths(c) == DepthsFrom >= 0 /\ c >= DepthsFrom
 
 NComp == Len(Dump)
 Blk(c, b) == Dump[c].blocks[b]
@@ -290,7 +292,8 @@ StartBlock ==
    arrival at a merge point the shallowest one, so that a path that leaks is reported once, where it joins, and the
    leak is not propagated downstream as a chain of secondary disagreements. *)
 Key(w) == w[3] + w[4] + w[5]
-Pick(wk) == CHOOSE k \in 1..Len(wk) : \A m \in 1..Len(wk) : Key(wk[k]) < Key(wk[m]) \/ (Key(wk[k]) = Key(wk[m]) /\ k <= m)
+MinKey(wk) == CHOOSE v \in {Key(wk[k]) : k \in 1..Len(wk)} : \A u \in {Key(wk[k]) : k \in 1..Len(wk)} : v <= u
+Pick(wk) == LET mk == MinKey(wk) IN CHOOSE k \in 1..Len(wk) : Key(wk[k]) = mk /\ \A m \in 1..(k - 1) : Key(wk[m]) # mk
 Without(wk, k) == SubSeq(wk, 1, k - 1) \o SubSeq(wk, k + 1, Len(wk))
 
 (***************************************************************************)
@@ -372,7 +375,7 @@ FinishBlock ==
   /\ phase = "flow" /\ work = <<>>
   /\ doneB' = doneB \cup {cur}
   /\ phase' = IF todo = {} THEN "done" ELSE "next"
-  /\ IF EmitDepths
+  /\ IF EmitDepths(comp)
      THEN PrintT(<<"DEPTHS", ToJson([c |-> comp, b |-> cur[1], base |-> cur[2], id |-> Blk(comp, cur[1]).id,
                                      d |-> DepthRows(Blk(comp, cur[1]))])>>)
      ELSE TRUE
